@@ -279,8 +279,32 @@ def r10_atomic(text, log, **kw):
                     raise Undecided("R10: fetch_add whose result is used")
                 recv = s.slice(r, p - 1)
                 return _edit(t, s, r, c, "%s = %s.wrapping_add(%s)" % (recv, recv, s.slice(p + 3, c - 5)))
+        for name, tmpl in (("fetch_sub", "%(r)s = %(r)s.wrapping_sub(%(v)s)"), ("fetch_max", "if %(v)s > %(r)s { %(r)s = %(v)s; }"),
+                           ("fetch_min", "if %(v)s < %(r)s { %(r)s = %(v)s; }")):
+            for p in _find_method(s, name):
+                c = s.closer(p + 2)
+                if s.seq(c - 3, "Ordering", "::") and s.is_(c - 4, ","):
+                    r = receiver_start(s, p)
+                    if not s.is_(c + 1, ";") or (r > 0 and s.txt(r - 1) not in (";", "{", "}")):
+                        raise Undecided("R10: %s whose result is used" % name)
+                    return _edit(t, s, r, c, tmpl % dict(r=s.slice(r, p - 1), v="(" + s.slice(p + 3, c - 5) + ")"))
         return None
     return _fix(text, step, log, "R10")
+
+
+# --- R8n: constructors of the wrappers that R6/R8/R10 erase: Arc::new(E), Mutex::new(E), RwLock::new(E), Box::new(E),
+#          AtomicI64::new(E), AtomicBool::new(E), AtomicU64::new(E)  ->  (E)      (on request) --------------------------
+def r8_wrapper_new(text, log, **kw):
+    def step(t):
+        s = Src(t)
+        for p in range(len(s) - 4):
+            if s.kind(p) == "ident" and s.txt(p) in ("Arc", "Mutex", "RwLock", "Box", "AtomicI64", "AtomicBool", "AtomicU64") \
+                    and s.is_(p + 1, "::") and s.is_(p + 2, "new") and s.is_(p + 3, "(") and not s.is_(p - 1, "::"):
+                c = s.closer(p + 3)
+                inner = s.slice(p + 4, c - 1)
+                return _edit(t, s, p, c, "(%s)" % inner)
+        return None
+    return _fix(text, step, log, "R8")
 
 
 # --- R12: `v.drain(n..);` as a statement == truncate(n) ---------------------------------------------
@@ -688,6 +712,7 @@ RULES = {
     "R3e": r3_map_err,
     "RF": rf_format,
     "R12v": r12_valueref,
+    "R8n": r8_wrapper_new,
     "RS": rs_stmt_replace,
     "R3": r3_opt_map,
     "R4": r4_for_each,
